@@ -1,10 +1,11 @@
-import AioslskVerif.Proofs.Track
+import AioslskVerif.Proofs.TrackWorld
 /-!
 # C15 — user tracking on the server mirrors the set of reasons to track
 
 Property theorems only (model: `Model/Track.lean` = the code **with** `fixes/C15-lost-call-in-exit-window.patch`,
-`fixes/C15-swallowed-cancel-on-close.patch` and `fixes/C15-transfer-reason-kept-after-remove.patch`; helpers:
-`Proofs/Track.lean`).
+`fixes/C15-swallowed-cancel-on-close.patch`, `fixes/C15-transfer-reason-kept-after-remove.patch` and
+`fixes/C15-stale-retry-after-retrack.patch`; helpers: `Proofs/Track.lean`, `Proofs/TrackLog.lean`,
+`Proofs/TrackWorld.lean`).
 
 Every theorem quantifies over **all** op lists `ops` from the initial state, i.e. over every interleaving of
 calls (`track`/`untrack`, any user, any flags), worker steps with any network behaviour (`workerStep u env`),
@@ -12,7 +13,9 @@ retry timers firing (never early), done-callbacks (`reap`), server closes and cl
 (`issued`, `processed`, `frames`, …) are per user and start again at every server close.
 The second half (`World`) adds the owners of the reasons — logins, the friends list, the transfer manager's
 cycles and transfers — and proves that what the tracking manager is asked for is what can be observed from
-outside, in particular again after a session loss.
+outside, in particular again after a session loss. A `TransferManager.remove` is three steps there
+(`trmStart`, `trmDrop`, `trmEnd`): whatever the manager is asked meanwhile — other removals of the same user's
+transfers, additions, cycles — comes in between.
 Time unit: tick = 1/1024 s.
 -/
 namespace AioslskVerif.C15
@@ -36,23 +39,84 @@ theorem C15_reap_harmless (ops : List Op) (u g : Nat) :
   exact reap_entry_of_inv (inv_reach ops u) g
 
 /-- what one request must put on the wire, by cases: RemoveUser exactly on non-empty→empty, AddUser exactly
-on empty→non-empty, nothing otherwise — except that a retry request re-sends AddUser while a reason remains -/
+on empty→non-empty, nothing otherwise -/
 theorem C15_edge_cases (f : Flags) (r : Req) :
     (f ≠ Flags.empty → r.apply f = Flags.empty → edge f r = [.removeUser]) ∧
     (f = Flags.empty → r.apply f ≠ Flags.empty → edge f r = [.addUser]) ∧
     (f = Flags.empty → r.apply f = Flags.empty → edge f r = []) ∧
-    (f ≠ Flags.empty → r.apply f ≠ Flags.empty → r.isRetry = false → edge f r = []) ∧
-    (f ≠ Flags.empty → r.isRetry = true → edge f r = [.addUser]) :=
+    (f ≠ Flags.empty → r.apply f ≠ Flags.empty → edge f r = []) :=
   edge_cases f r
 
-/-- **Edges.** The AddUser/RemoveUser attempts made are exactly the edge-triggered fold (`specFrames`: one
-`edge` per request) of the requests the worker has applied, and the reasons it holds are their fold; once
-nothing is queued both equal the fold of **all** requests made (calls and retry firings, in issue order). -/
+/-- **Edges.** The AddUser/RemoveUser attempts made — the repetitions of an AddUser (its retries, justified by
+`C15_attempts_justified`) left out — are exactly the edge-triggered fold (`specFrames`: one `edge` per
+request) of the requests the worker has applied, and the reasons it holds are their fold; once nothing is
+queued both equal the fold of **all** requests made (in issue order; a retry request changes no reason). -/
 theorem C15_edges (ops : List Op) (u : Nat) :
     let U := (run State.init ops).users u
-    U.frames = specFrames U.processed ∧ U.flagsOf = specFlags U.processed ∧
-    (U.queue = [] → U.frames = specFrames U.issued ∧ U.flagsOf = specFlags U.issued) :=
+    collapse U.frames = specFrames U.processed ∧ U.flagsOf = specFlags U.processed ∧
+    (U.queue = [] → collapse U.frames = specFrames U.issued ∧ U.flagsOf = specFlags U.issued) :=
   edges_of_inv (inv_reach ops u)
+
+/-- **…and never otherwise.** The log of what happened on the wire for a user (attempts and how they ended) is
+the attempts made, and every event in it may follow its predecessor (`Ev.okAfter`): an AddUser is attempted
+first of all, directly after a RemoveUser, or directly after a FAILED attempt — then not before the documented
+delay for that kind of failure is over; it is never repeated after an attempt that was answered "exists" or is
+still unanswered, whatever was queued behind whatever (on the pinned code a retry request queued behind an
+untrack + track pair re-sent AddUser to a user that was tracked again). A RemoveUser only follows an answered
+attempt, an answer only its attempt. -/
+theorem C15_attempts_justified (ops : List Op) (u : Nat) :
+    let U := (run State.init ops).users u
+    Justified U.log = true ∧ framesOf U.log = U.frames :=
+  ⟨(inv_reach ops u).logJ, (inv_reach ops u).logF⟩
+
+/-- the cases of `Ev.okAfter` spelled out for an AddUser attempt made at tick `t` -/
+theorem C15_add_follows (t : Nat) (prev : Option Ev) :
+    (Ev.add t).okAfter prev = true ↔
+      (prev = none ∨ prev = some .remove ∨ ∃ due, prev = some (.fail due) ∧ due ≤ t) := by
+  cases prev with
+  | none => simp [Ev.okAfter]
+  | some e => cases e <;> simp [Ev.okAfter]
+
+/-- a failed attempt is logged with the instant its documented delay is over: now + 10 s (send error, no
+answer, error) or now + 600 s (user does not exist) -/
+theorem C15_fail_logged (U : User) (e : Entry) (now : Nat) (o : Outcome) (delay : Nat) :
+    (U.failAttempt e now o delay).log = U.log ++ [.fail (now + delay * 1024)] := rfl
+
+/-- **A retry that was called off stays called off.** A retry request counts only while it is the pending one
+(fix 4): when the worker takes a request made by a retry task that is not the pending retry — the reasons were
+withdrawn after the timer fired and came back, or a newer attempt failed — while reasons stand, nothing is
+sent and neither the state nor the reasons change. -/
+theorem C15_stale_retry_ignored (U : User) (now : Nat) (env : Env) (e : Entry) (q : List Req) (k : Nat)
+    (he : U.entry = some e) (hpc : e.pc = .idle) (hq : e.queue = retryReq k :: q)
+    (hk : e.live ≠ some k) (hf : e.flags ≠ Flags.empty) :
+    (U.worker now env).frames = U.frames ∧ (U.worker now env).log = U.log ∧
+    (U.worker now env).stateOf = U.stateOf ∧ (U.worker now env).flagsOf = U.flagsOf := by
+  have hh : e.honours (retryReq k) = false := by
+    unfold Entry.honours retryReq
+    simp only [beq_eq_false_iff_ne, ne_eq]
+    exact hk
+  have ha : (retryReq k).apply e.flags = e.flags := by simp [retryReq, Req.apply]
+  unfold User.worker
+  simp only [he, hpc, hq]
+  unfold User.take
+  simp [hh, ha, hf, User.stateOf, User.flagsOf, he]
+
+/-- the pending retry, in every reachable state: its request is only remembered while the worker waits for
+requests in state `retry_pending` with reasons standing, no other retry task sleeps, and the last thing that
+happened on the wire is the failed attempt it belongs to, whose documented delay is over -/
+theorem C15_pending_retry (ops : List Op) (u : Nat) :
+    let s := run State.init ops
+    let U := s.users u
+    ∀ e k, U.entry = some e → e.live = some k →
+      e.flags ≠ Flags.empty ∧ e.pc = .idle ∧ e.retry = none ∧ e.state = .retryPending ∧
+      ∃ due, U.log.getLast? = some (.fail due) ∧ due ≤ s.now := by
+  intro s U e k he hk
+  have hinv : UInv s.now U := inv_reach ops u
+  obtain ⟨h1, h2, h3, due, h4, h5⟩ := hinv.live e k he hk
+  refine ⟨h1, h2, h3, ?_, due, h4, h5⟩
+  rcases (hinv.idle e he h2).2.2.2 h1 with ⟨_, hl⟩ | ⟨hs, _⟩
+  · rw [h4] at hl; cases hl
+  · exact hs
 
 /-- **State.** When the user is quiescent (nothing queued, worker waiting for requests, or no entry) the
 reported state is `tracked` exactly when the reasons — the fold of all requests made — are non-empty and the
@@ -75,7 +139,8 @@ theorem C15_documented_delays :
 /-- **Retries only while a reason remains.** In every reachable state a sleeping retry task implies a
 non-empty set of reasons, was started in the past with one of the documented delays, and the number of retry
 timers that have fired or are pending never exceeds the number of failed attempts; a network call in flight
-for AddUser implies a non-empty set of reasons, one for RemoveUser implies an empty one and no retry task. -/
+for AddUser implies a non-empty set of reasons, one for RemoveUser implies an empty one, no retry task and no
+pending retry request. -/
 theorem C15_retry_only_while_reason (ops : List Op) (u : Nat) :
     let s := run State.init ops
     let U := s.users u
@@ -83,15 +148,15 @@ theorem C15_retry_only_while_reason (ops : List Op) (u : Nat) :
         e.flags ≠ Flags.empty ∧ t.armedAt ≤ s.now ∧ (t.delay = 10 ∨ t.delay = 600)) ∧
     U.fired + U.pending ≤ U.failed ∧
     (∀ e, U.entry = some e → (e.pc = .sendAdd ∨ ∃ d, e.pc = .waitResp d) → e.flags ≠ Flags.empty) ∧
-    (∀ e, U.entry = some e → e.pc = .sendRemove → e.flags = Flags.empty ∧ e.retry = none) :=
+    (∀ e, U.entry = some e → e.pc = .sendRemove → e.flags = Flags.empty ∧ e.retry = none ∧ e.live = none) :=
   retry_of_inv (inv_reach ops u)
 
-/-- when every call names at least one reason, the retry requests among the requests made are exactly the
-timer firings — hence at most as many as failed attempts -/
-theorem C15_retries_from_timers (ops : List Op) (hops : ∀ op ∈ ops, op.flagOk = true) (u : Nat) :
+/-- the requests made by retry tasks among the requests made are exactly the timer firings — hence at most as
+many as failed attempts (whatever flags the calls carry: a retry request is known by its identity) -/
+theorem C15_retries_from_timers (ops : List Op) (u : Nat) :
     let U := (run State.init ops).users u
     (U.issued.filter Req.isRetry).length = U.fired ∧ U.fired ≤ U.failed :=
-  ⟨rinv_reach ops hops u, Nat.le_trans (Nat.le_add_right _ _) (inv_reach ops u).count⟩
+  ⟨rinv_reach ops u, Nat.le_trans (Nat.le_add_right _ _) (inv_reach ops u).count⟩
 
 /-- a worker step that starts a retry task is a failed attempt, and the task sleeps the documented delay
 for that kind of failure, counted from now -/
@@ -141,13 +206,43 @@ theorem C15_world_is_history (wops : List WOp) :
 /-- **TRANSFER = "has an unfinished transfer".** After a management cycle — until the transfers change or
 the server connection closes — the TRANSFER reason of *every* user is set exactly when the user has an
 unfinished transfer; and at all times a user without any transfer does not carry it (needs
-`fixes/C15-transfer-reason-kept-after-remove.patch`). A close clears `cycleRan`: the reason is gone with
-everything else and is back after the next cycle, whatever happened in between. -/
+`fixes/C15-transfer-reason-kept-after-remove.patch`) — a user whose transfer a `remove()` in progress has taken
+off the list and who is about to be asked about (`RemovalPending`) excepted, for as long as that takes. A close
+clears `cycleRan`: the reason is gone with everything else and is back after the next cycle, whatever happened
+in between. -/
 theorem C15_transfer_reason (wops : List WOp) (hops : ∀ op ∈ wops, op.appOk = true) (u : Nat) :
     let w := wrun World.init wops
-    (w.cycleRan = true → (reasons w.t u).tr = decide (w.HasUnfinished u)) ∧
-    (¬ w.HasXfer u → (reasons w.t u).tr = false) :=
-  ⟨fun h => (winv_reach wops hops).trSync h u, (winv_reach wops hops).trNone u⟩
+    (w.cycleRan = true → ¬ w.RemovalPending u → (reasons w.t u).tr = decide (w.HasUnfinished u)) ∧
+    (¬ w.HasXfer u → ¬ w.RemovalPending u → (reasons w.t u).tr = false) := by
+  intro w
+  constructor
+  · intro hc hp
+    rcases (winv_reach wops hops).trSync hc u with h | ⟨h, _⟩
+    · exact h
+    · exact (hp h).elim
+  · intro hx hp
+    rcases (winv_reach wops hops).trNone u hx with h | h
+    · exact (hp h).elim
+    · exact h
+
+/-- **Removals that overlap withdraw the reason all the same.** `remove()` waits in the middle (abort, the
+cancelled tasks, the listeners): removals of several transfers of one user may be in progress at once, transfers
+may be added and cycles may run meanwhile — in any order of their steps. Once no removal is in progress, a user
+without any transfer does not carry TRANSFER (each removal asks "any transfer of that user left?" at its end,
+not at its beginning: the last one to end sees none). -/
+theorem C15_removals_withdraw (wops : List WOp) (hops : ∀ op ∈ wops, op.appOk = true) (u : Nat) :
+    let w := wrun World.init wops
+    w.rm = [] → ¬ w.HasXfer u → (reasons w.t u).tr = false := by
+  intro w hrm hx
+  have hp : ¬ w.RemovalPending u := by
+    rintro ⟨r, hr, _⟩
+    rw [hrm] at hr
+    cases hr
+  exact (C15_transfer_reason wops hops u).2 hx hp
+
+/-- `remove()` with nothing else running meanwhile is its three steps in a row -/
+theorem C15_remove_is_its_steps (w : World) (id : Nat) :
+    wstep w (.trm id) = wrun w [.trmStart id, .trmDrop id, .trmEnd id] := rfl
 
 /-- **FRIEND = "a session exists and the name is in the friends list"**, at all times, for every user other
 than the own name — in particular again after every login that follows a close. -/
@@ -166,24 +261,24 @@ theorem C15_owners_leave_requested (w : World) (op : WOp) (hop : ∀ b, op ≠ .
   req_owner_step w op hop u
 
 /-- **What is observable mirrors what can be observed.** In any world state with a session in which a cycle ran
-after the last change of the transfers, a user (other than the own name) whose worker has caught up
-(`queue = []`) reports exactly these reasons: REQUESTED as the application left it, TRANSFER iff an
+after the last change of the transfers and no `remove()` is about to ask about the user, a user (other than
+the own name) whose worker has caught up (`queue = []`) reports exactly these reasons: REQUESTED as the application left it, TRANSFER iff an
 unfinished transfer exists, FRIEND iff in the friends list — and the last request made to the server for that
 user is an AddUser exactly when one of the three stands. -/
 theorem C15_session_mirror (wops : List WOp) (hops : ∀ op ∈ wops, op.appOk = true) (u : Nat) (hu : u ≠ me) :
     let w := wrun World.init wops
     let U := w.t.users u
-    w.session = true → w.cycleRan = true → U.queue = [] →
+    w.session = true → w.cycleRan = true → ¬ w.RemovalPending u → U.queue = [] →
       U.flagsOf = ⟨(reasons w.t u).req, decide (w.HasUnfinished u), decide (u ∈ w.friends)⟩ ∧
       (U.frames.getLast? = some .addUser ↔
         ((reasons w.t u).req = true ∨ w.HasUnfinished u ∨ u ∈ w.friends)) := by
-  intro w U hs hc hq
+  intro w U hs hc hp hq
   obtain ⟨ops, hops'⟩ := wrun_is_run wops
   have hinv : UInv (run State.init ops).now ((run State.init ops).users u) := inv_reach ops u
   have hU : U = (run State.init ops).users u := by show w.t.users u = _; rw [hops']
   rw [← hU] at hinv
   have hfl : U.flagsOf = reasons w.t u := ((edges_of_inv hinv).2.2 hq).2
-  have htr := (winv_reach wops hops).trSync hc u
+  have htr := (C15_transfer_reason wops hops u).1 hc hp
   have hfr := (winv_reach wops hops).frOn hs u hu
   have hfl' : U.flagsOf = ⟨(reasons w.t u).req, decide (w.HasUnfinished u), decide (u ∈ w.friends)⟩ := by
     rw [hfl, ← htr, ← hfr]
@@ -217,7 +312,19 @@ theorem C15_rederived_after_session_loss (wops : List WOp) (hops : ∀ op ∈ wo
   have hs : w'.session = true := rfl
   have hc : w'.cycleRan = true := rfl
   refine ⟨hx, hf, hs, ?_⟩
-  have htr := hinv.trSync hc u
+  have htr : (reasons w'.t u).tr = decide (w'.HasUnfinished u) := by
+    rcases hinv.trSync hc u with h | ⟨_, hnx⟩
+    · exact h
+    · -- no transfer at all: nothing was asked for since the close
+      let w2 := wstep (wstep w (.base .serverClosed)) .login
+      have hnx2 : ¬ w2.HasXfer u := hnx
+      show (reasons (run w2.t w2.cycleOps) u).tr = _
+      rw [tr_cycle_no_xfer w2 u hnx2]
+      show (reasons (run (wstep w (.base .serverClosed)).t (wstep w (.base .serverClosed)).loginOps) u).tr = _
+      rw [tr_login]
+      show (reasons (step w.t .serverClosed) u).tr = _
+      rw [reasons_closed]
+      exact (not_unfinished_of_no_xfer hnx).symm
   have hfr := hinv.frOn hs u hu
   have hreq : (reasons w'.t u).req = false := by
     have h1 : (reasons w'.t u).req = (reasons (wstep (wstep w (.base .serverClosed)) .login).t u).req :=
@@ -263,6 +370,28 @@ example :
       .advance 10240, .retryFires 0, .workerStep 0 .sendOk]
     (s.users 0).fired = 1 ∧ (s.users 0).frames = [.addUser, .addUser] := by decide
 
+/-- the retry that was called off: the attempt fails, the timer fires while the worker has not run, and the
+request it puts ends up behind an untrack + track pair. The user is untracked, tracked again (answered "exists") —
+and the stale retry request sends nothing (on the pinned code: a fourth attempt, AddUser to a tracked user) -/
+example :
+    let s := run State.init [.track 0 fReq, .workerStep 0 .sendOk, .workerStep 0 .sendFail, .advance 10240,
+      .untrack 0 fReq, .track 0 fReq, .retryFires 0,
+      .workerStep 0 .sendOk, .workerStep 0 .sendOk,                       -- untrack: RemoveUser, sent
+      .workerStep 0 .sendOk, .workerStep 0 .sendOk, .workerStep 0 .exists, -- track: AddUser, sent, "exists"
+      .workerStep 0 .sendOk]                                              -- the stale retry request
+    (s.users 0).frames = [.addUser, .removeUser, .addUser] ∧ (s.users 0).stateOf = .tracked ∧
+    (s.users 0).queue = [] ∧ (s.users 0).fired = 1 ∧
+    (s.users 0).log = [.add 0, .fail 10240, .remove, .add 10240, .ok] := by decide
+
+/-- the pending retry is honoured: same start, nobody interferes -/
+example :
+    let s := run State.init [.track 0 fReq, .workerStep 0 .sendOk, .workerStep 0 .sendFail, .advance 10240,
+      .retryFires 0]
+    (∃ e, (s.users 0).entry = some e ∧ e.live = some 0) ∧
+    ((step s (.workerStep 0 .sendOk)).users 0).log = [.add 0, .fail 10240, .add 10240] := by
+  refine ⟨⟨_, rfl, rfl⟩, ?_⟩
+  decide
+
 /-- calls with a reason satisfy `flagOk`; a close is not a call -/
 example : ∀ op ∈ [Op.track 0 fReq, .untrack 1 fFriend, .serverClosed, .advance 3], op.flagOk = true := by decide
 example : ∀ op ∈ [Op.workerStep 0 .sendOk, .retryFires 1, .reap 0 0, .serverClosed], op.isCall = false := by decide
@@ -293,6 +422,30 @@ example :
     let w := wrun World.init [.tadd 0, .cycle, .base (.workerStep 0 .sendOk), .base (.workerStep 0 .sendOk),
       .base (.workerStep 0 .exists), .trm 0, .base (.workerStep 0 .sendOk)]
     ¬ w.HasXfer 0 ∧ (w.t.users 0).frames = [.addUser, .removeUser] := by
+  decide
+
+/-- two removals of one user's last two transfers that overlap ("clear all"): each takes its transfer off the
+list before either asks; the one that ends last sees no transfer left and withdraws the reason -/
+example :
+    let w := wrun World.init [.tadd 0, .tadd 0, .cycle, .base (.workerStep 0 .sendOk), .base (.workerStep 0 .sendOk),
+      .base (.workerStep 0 .exists), .trmStart 0, .trmStart 1, .trmDrop 0, .trmDrop 1, .trmEnd 0, .trmEnd 1,
+      .base (.workerStep 0 .sendOk)]
+    w.rm = [] ∧ ¬ w.HasXfer 0 ∧ (w.t.users 0).frames = [.addUser, .removeUser] ∧
+    (reasons w.t 0).tr = false := by
+  decide
+
+/-- a transfer of the same user is added while the only one is being removed: at its end the removal sees the
+new transfer and leaves the reason alone -/
+example :
+    let w := wrun World.init [.tadd 0, .cycle, .base (.workerStep 0 .sendOk), .base (.workerStep 0 .sendOk),
+      .base (.workerStep 0 .exists), .trmStart 0, .trmDrop 0, .tadd 0, .trmEnd 0, .base (.workerStep 0 .sendOk)]
+    w.rm = [] ∧ w.HasUnfinished 0 ∧ (w.t.users 0).frames = [.addUser] ∧ (reasons w.t 0).tr = true := by
+  decide
+
+/-- between `trmDrop` and `trmEnd` the user is `RemovalPending`: the exception in `C15_transfer_reason` is met -/
+example :
+    let w := wrun World.init [.tadd 0, .cycle, .trmStart 0, .trmDrop 0, .cycle]
+    w.cycleRan = true ∧ w.RemovalPending 0 ∧ ¬ w.HasXfer 0 ∧ (reasons w.t 0).tr = true := by
   decide
 
 end AioslskVerif.C15
